@@ -211,6 +211,11 @@ fn base_responder(family: Family) -> BoxedStrategy<Maker> {
                 .prop_map(move |mut st| {
                     st.version = v;
                     st.players.truncate(10);
+                    if v == 1 {
+                        for p in st.players.iter_mut() {
+                            p.frags = (p.frags as u32 & 0xFFFF) as i32;
+                        }
+                    }
                     mk(move || Box::new(DatagramServer { request: mq::request(v), reply: vec![st.encode()] }) as Box<dyn Responder>)
                 })
                 .boxed()
